@@ -291,6 +291,7 @@ Definition mon_C09 (b : base) (m : mst) (te : Z * ev) : list alarm :=
   | ECensus n => when (negb (n =? 0)) 904
   | EApiRet i call res err _ =>
       if ((call =? aStop) || (call =? aStopCtx)) then
+        when ((res =? 0) && io_flag (inst_of b i)) 909 ++
         match m_stop_call (mon_of m i) with
         | Some (t0, c0, bound, del, owned, g0) =>
             (* promptness: Stop within 5 s plus the demotion callback; StopWithContext within its time-out
